@@ -2,7 +2,10 @@
 label.  Oracle on SimpleARTMAP / ARTMAP with every elementary class (and
 DualVigilanceART / FusionART) as A-side, all five modes, arbitrary incl.
 contradictory labels: map only grows, map_a2b(labels_a) == targets, predictions
-are classes seen and equal map[predict_a], regression returns the B-side centre.
+are classes seen and equal map[predict_a], regression returns the B-side centre.  Histories also contain calls that the
+library REJECTS (valid targets, X not prepared / of the wrong width), caught by the
+caller, after which training and querying go on: a rejected call has trained
+nothing on either side, so every clause holds for the accepted samples alone.
 Tie: Lean SimpleARTMAP histories end-to-end on exact kernels."""
 from __future__ import annotations
 
@@ -14,7 +17,10 @@ from . import e2e
 
 RULE = ("cases = (A-side class, [B-side class], hyper-parameters, stream, label sequence incl. contradictory labels "
         "on identical rows, mode, epsilon, batching, epochs); checked after every call; non-trivial when >= 2 "
-        "classes and >= 2 A-side categories exist; distinct by hash of (spec, stream, labels, mode, eps, batching)")
+        "classes and >= 2 A-side categories exist; distinct by hash of (spec, stream, labels, mode, eps, batching); "
+        "plus histories with REJECTED calls (valid targets, X not prepared / wider / narrower; as fit or partial_fit; before "
+        "any training, between calls, last) caught by the caller: the rejected call leaves map, labels_a, labels_b as they "
+        "were and all clauses hold after it and after every later call for the accepted samples")
 
 A_SIDES = specs.ELEM + ["DualVigilanceART", "FusionART"]
 
@@ -41,6 +47,215 @@ def prepare(ctx):
 
 def kw_pre(mode, eps):
     return dict(match_tracking=mode, epsilon=eps)
+
+
+def call_clauses(ctx, est, cls, use_artmap, y, targets, prev_map, rep):
+    """the per-call clauses of C09 on an estimator whose accepted training samples are rows `targets` (in order);
+    returns (the map now, whether all clauses could be evaluated)"""
+    cur = {int(p): int(q) for p, q in est.map.items()}
+    # functional for the whole history: entries never change
+    changed = {c: (prev_map[c], cur.get(c)) for c in prev_map if cur.get(c) != prev_map[c]}
+    if changed:
+        ctx.issue("violation", f"{cls}:map-overwritten", f"entries changed: {changed}", rep)
+    na = est.module_a.n_clusters   # for DualVigilanceART these are the cluster labels step_fit returns
+    la = np.asarray(est.labels_a)
+    lb = np.asarray(est.labels_b)
+    if len(la) != len(targets) or len(lb) != len(targets):
+        ctx.issue("violation", f"{cls}:labels-length", f"labels_a {len(la)} labels_b {len(lb)} samples {len(targets)}", rep)
+        return cur, False
+    if sorted(cur.keys()) != list(range(na)) or not set(la.tolist()) <= set(cur):
+        ctx.issue("violation", f"{cls}:map-domain", f"map keys {sorted(cur)}, {na} A-side categories, A-labels used {sorted(set(la.tolist()))}", rep)
+    try:
+        mapped = np.asarray(est.map_a2b(la))
+    except Exception as e:
+        ctx.issue("violation", f"{cls}.map_a2b:{exc_enum(e)}", repr(e), rep)
+        return cur, False
+    if not np.array_equal(mapped, lb):
+        ctx.issue("violation", f"{cls}:map_a2b(labels_a)!=targets", f"mapped {mapped.tolist()} targets {lb.tolist()}", rep)
+    try:
+        one = [int(est.map_a2b(int(c))) for c in la.tolist()]
+        if one != [int(cur[int(c)]) for c in la.tolist()]:
+            ctx.issue("violation", f"{cls}:map_a2b(scalar)!=map", f"{one} vs map {cur} on {la.tolist()}", rep)
+    except Exception as e:
+        ctx.issue("violation", f"{cls}.map_a2b(scalar):{exc_enum(e)}", repr(e), rep)
+    if not use_artmap and not np.array_equal(lb, y[targets]):
+        ctx.issue("violation", f"{cls}:labels_b!=y", f"labels_b {lb.tolist()} y {y[targets].tolist()}", rep)
+    return cur, True
+
+
+def pred_clauses(ctx, est, cls, acls, use_artmap, q, desc):
+    """the prediction clauses of C09 on queries q"""
+    try:
+        with quiet():
+            p = np.asarray(est.predict(q))
+            a_, b_ = est.predict_ab(q)
+        seen = set(int(t) for t in np.asarray(est.labels_b))
+        if not set(p.tolist()) <= seen:
+            ctx.issue("violation", f"{cls}.predict:class-never-seen", f"{p.tolist()} seen {sorted(seen)}", desc)
+        if [est.map[int(c)] for c in a_] != p.tolist() or not np.array_equal(np.asarray(b_), p):
+            ctx.issue("violation", f"{cls}.predict!=map[predict_a]", f"a {list(a_)} b {list(b_)} p {p.tolist()}", desc)
+        if use_artmap:
+            with quiet():
+                reg = np.asarray(est.predict_regression(q))
+                cen = est.module_b.get_cluster_centers()
+            want = np.array([cen[int(c)] for c in p])
+            if reg.shape != want.shape or not np.allclose(reg, want, rtol=0, atol=0, equal_nan=True):
+                ctx.issue("violation", "ARTMAP.predict_regression!=B-centre", f"{reg.tolist()} vs {want.tolist()}", desc)
+            ctx.cov.hit("regression-checked")
+    except Exception as e:
+        ctx.issue("violation", f"{cls}({acls}).predict:{exc_enum(e)}", f"predict raised {e!r}", desc)
+
+
+def bad_X(r, acls, Xb, kind):
+    """the rows of a valid batch as a caller gets them wrong (the targets of the call stay valid):
+    kind 'not-prepared' = the raw feature scale, prepare_data forgotten (all rows, or a single entry out of range);
+    'wider' / 'narrower' = prepared rows of another width than the estimator was trained on"""
+    Xb = np.array(Xb, dtype=float)
+    if kind == "not-prepared":
+        v = r.random()
+        if v < 0.45:
+            return Xb * r.choice([3.0, 10.0, 255.0]) + r.choice([1.25, 2.0, 40.0])
+        if v < 0.65:
+            return -Xb - r.choice([0.5, 1.0])
+        Xb[r.randrange(Xb.shape[0]), r.randrange(Xb.shape[1])] = r.choice([1.5, 7.0, -0.25, 100.0])
+        return Xb
+    w = Xb.shape[1]
+    if acls == "FuzzyART":
+        raw = Xb[:, : w // 2]      # stays complement coded: only the width is wrong
+        if kind == "narrower" and raw.shape[1] > 1:
+            return gen.cc(raw[:, :-1])
+        return gen.cc(np.hstack([raw, raw[:, :1]]))
+    if kind == "narrower" and w > 1:
+        return Xb[:, :-1].copy()
+    return np.hstack([Xb, Xb[:, :1]])
+
+
+def observed(est):
+    """the state C09 speaks about (map, labels_a, labels_b); None where the estimator has none yet"""
+    out = {"map": {int(p): int(q) for p, q in getattr(est, "map", {}).items()}}
+    for k in ("labels_a", "labels_b"):
+        try:
+            out[k] = np.asarray(getattr(est, k)).tolist()
+        except AttributeError:
+            out[k] = None
+    return out
+
+
+def rejected_call_histories(ctx, N, nmax):
+    """Histories in which some calls are rejected: fit / partial_fit with valid targets and an X the library refuses
+    (not prepared, wrong width), at any position (before any training, between batches, after a fit, after the last
+    batch; as the failed first attempt of the next batch, or on other rows).  The caller catches the error and goes
+    on.  A rejected call has accepted no sample: map, labels_a, labels_b are what they were, and every clause of C09
+    holds after it and after every later call for the accepted samples alone."""
+    cov = ctx.cov
+    for i in range(N):
+        r = gen.rng_for(ctx.seed, "C09-rejected", i)
+        acls = A_SIDES[i % len(A_SIDES)]
+        mode = MODES[(i // len(A_SIDES)) % 5]
+        eps = r.choice([1e-10, 0.0, 2.0 ** -20, 2.0 ** -10, 0.125])
+        n = r.randint(2, nmax)
+        aspec, X = a_side(r, acls, n)
+        use_artmap = r.random() < 0.65
+        kcls = r.randint(1, 4)
+        if use_artmap:
+            bcls = r.choice(["FuzzyART", "HypersphereART", "ART2A"])
+            db = r.randint(1, 2)
+            bspec = specs.elem_spec(r, bcls, specs.width(bcls, db) if bcls != "FuzzyART" else db)
+            if bspec.get("alpha") == 0.0:
+                bspec["alpha"] = 2.0 ** -10
+            centers = gen.grid_rows(r, kcls, db, style="coarse")
+            yraw = np.array([centers[r.randrange(kcls)] for _ in range(n)])
+            y = gen.cc(yraw) if bcls == "FuzzyART" else yraw
+            spec = {"cls": "ARTMAP", "module_a": aspec, "module_b": bspec}
+        else:
+            y = gen.labels(r, n, kcls)
+            spec = {"cls": "SimpleARTMAP", "module_a": aspec}
+        cls = spec["cls"]
+        kw = dict(match_tracking=mode, epsilon=eps)
+        epochs = r.choice([1, 1, 2])
+        # the accepted calls
+        if r.random() < 0.5:
+            good, j = [], 0
+            for p in gen.compositions(r, n):
+                good.append(("pfit", j, j + p))
+                j += p
+        else:
+            h = r.randint(1, n - 1)
+            good = [("fit", 0, h)] + r.choice([[], [("pfit", h, n)], [("fit", h, n)]])
+        # the rejected calls: before accepted call `pos` (== len(good): after the last one)
+        where = sorted({r.randint(0, len(good)) for _ in range(r.choice([1, 1, 2]))} | ({r.randint(1, len(good))} if r.random() < 0.5 else set()))
+        calls = []
+        for k in range(len(good) + 1):
+            if k in where:
+                if k < len(good) and r.random() < 0.7:
+                    a, b = good[k][1], good[k][2]          # the failed first attempt of the next batch
+                else:
+                    a = r.randrange(n)
+                    b = r.randint(a + 1, n)
+                kind = r.choice(["not-prepared", "not-prepared", "wider", "narrower"]) if k > 0 else "not-prepared"
+                calls.append((r.choice(["fit", "pfit"]), a, b, kind, bad_X(r, acls, X[a:b], kind).tolist()))
+            if k < len(good):
+                calls.append(good[k] + (None, None))
+        desc = {"spec": spec, "X": X.tolist(), "y": y.tolist(), "mode": mode, "eps": eps, "epochs": epochs,
+                "calls": [{"op": op, "rows": [a, b], "X": "X[rows]" if kind is None else Xbad, "y": "y[rows]",
+                           "expected": "accepted" if kind is None else f"rejected ({kind})"} for op, a, b, kind, Xbad in calls]}
+        try:
+            est = make(spec)
+            if use_artmap and bcls == "FuzzyART":
+                with quiet():
+                    est.module_b.prepare_data(np.array([[0.0] * db, [1.0] * db]))
+        except Exception as e:
+            ctx.issue("violation", f"{cls}({acls}).__init__:{exc_enum(e)}", repr(e), desc)
+            continue
+        prev_map, targets, ok, nrej = {}, [], True, 0
+        for k, (op, a, b, kind, Xbad) in enumerate(calls):
+            rep = dict(desc, after_call=k)
+            before = observed(est)
+            Xc = X[a:b] if kind is None else np.array(Xbad, dtype=float)
+            try:
+                with quiet():
+                    if op == "fit":
+                        est.fit(Xc, y[a:b], max_iter=epochs, **kw)
+                    else:
+                        est.partial_fit(Xc, y[a:b], **kw)
+                raised = None
+            except Exception as e:
+                raised = e
+            if kind is None:
+                if raised is not None:
+                    ctx.issue("violation", f"{cls}({acls}).{op}:{exc_enum(raised)}:after-rejected-call" if nrej else f"{cls}({acls}).{op}:{exc_enum(raised)}",
+                              f"{op} rows {a}:{b} (valid) raised {raised!r} (mode {mode}; {nrej} rejected calls before)", rep)
+                    ok = False
+                    break
+                if op == "fit":
+                    prev_map, targets = {}, list(range(a, b))
+                else:
+                    targets = targets + list(range(a, b))
+            else:
+                if raised is None:
+                    # the library took this X: not the situation meant here (what validate_data accepts is C18's subject)
+                    cov.hit(f"bad-X-not-rejected:{kind}")
+                    ok = False
+                    break
+                nrej += 1
+                cov.hit(f"rejected-call:{op}:{kind}:{'before-any-training' if not targets else 'mid-history' if k < len(calls) - 1 else 'last-call'}")
+                after = observed(est)
+                diff = [f for f in before if before[f] != after[f]]
+                if diff:
+                    meth = "fit" if op == "fit" else "partial_fit"
+                    ctx.issue("violation", f"{cls}.{meth}:rejected-call-changed:{'+'.join(diff)}",
+                              f"{meth} rows {a}:{b} with X {kind} raised {raised!r}, yet " +
+                              "; ".join(f"{f} {before[f]} -> {after[f]}" for f in diff), rep)
+            if targets:
+                prev_map, done = call_clauses(ctx, est, cls, use_artmap, y, targets, prev_map, rep)
+                if done and nrej:
+                    cov.hit(f"call-checked-after-rejected-call:{cls}")
+        if not ok or not targets:
+            continue
+        q = X[[r.randrange(n) for _ in range(min(n, 6))]]
+        pred_clauses(ctx, est, cls, acls, use_artmap, q, dict(desc, after_call="all"))
+        ncls = len(set(np.asarray(est.labels_b).tolist()))
+        cov.case((spec, desc["X"], desc["y"], mode, eps, desc["calls"]), ncls >= 2 and len(est.map) >= 2)
 
 
 def run(ctx):
@@ -158,66 +373,22 @@ def run(ctx):
                           dict(desc, calls=calls, epochs=epochs))
                 ok = False
                 break
-            cur = {int(p): int(q) for p, q in est.map.items()}
             rep = dict(desc, calls=calls, epochs=epochs, after_call=k)
-            # functional for the whole history: entries never change
-            changed = {c: (prev_map[c], cur.get(c)) for c in prev_map if cur.get(c) != prev_map[c]}
-            if changed:
-                ctx.issue("violation", f"{spec['cls']}:map-overwritten", f"entries changed: {changed}", rep)
-            prev_map = cur
-            na = est.module_a.n_clusters   # for DualVigilanceART these are the cluster labels step_fit returns
-            la = np.asarray(est.labels_a)
-            lb = np.asarray(est.labels_b)
-            if len(la) != len(targets) or len(lb) != len(targets):
-                ctx.issue("violation", f"{spec['cls']}:labels-length", f"labels_a {len(la)} labels_b {len(lb)} samples {len(targets)}", rep)
-                continue
-            if sorted(cur.keys()) != list(range(na)) or not set(la.tolist()) <= set(cur):
-                ctx.issue("violation", f"{spec['cls']}:map-domain", f"map keys {sorted(cur)}, {na} A-side categories, A-labels used {sorted(set(la.tolist()))}", rep)
-            try:
-                mapped = np.asarray(est.map_a2b(la))
-            except Exception as e:
-                ctx.issue("violation", f"{spec['cls']}.map_a2b:{exc_enum(e)}", repr(e), rep)
-                continue
-            if not np.array_equal(mapped, lb):
-                ctx.issue("violation", f"{spec['cls']}:map_a2b(labels_a)!=targets", f"mapped {mapped.tolist()} targets {lb.tolist()}", rep)
-            try:
-                one = [int(est.map_a2b(int(c))) for c in la.tolist()]
-                if one != [int(cur[int(c)]) for c in la.tolist()]:
-                    ctx.issue("violation", f"{spec['cls']}:map_a2b(scalar)!=map", f"{one} vs map {cur} on {la.tolist()}", rep)
-            except Exception as e:
-                ctx.issue("violation", f"{spec['cls']}.map_a2b(scalar):{exc_enum(e)}", repr(e), rep)
-            if not use_artmap and not np.array_equal(lb, y[targets]):
-                ctx.issue("violation", f"{spec['cls']}:labels_b!=y", f"labels_b {lb.tolist()} y {y[targets].tolist()}", rep)
-            cov.hit(f"call-checked:{mode}")
+            prev_map, done = call_clauses(ctx, est, spec["cls"], use_artmap, y, targets, prev_map, rep)
+            if done:
+                cov.hit(f"call-checked:{mode}")
         if not ok:
             cov.case((spec, desc["X"], desc["y"], mode, eps, calls), False)
             continue
         # predictions
         q = X[[r.randrange(n) for _ in range(min(n, 6))]]
-        try:
-            with quiet():
-                p = np.asarray(est.predict(q))
-                a_, b_ = est.predict_ab(q)
-            seen = set(int(t) for t in np.asarray(est.labels_b))
-            if not set(p.tolist()) <= seen:
-                ctx.issue("violation", f"{spec['cls']}.predict:class-never-seen", f"{p.tolist()} seen {sorted(seen)}", desc)
-            if [est.map[int(c)] for c in a_] != p.tolist() or not np.array_equal(np.asarray(b_), p):
-                ctx.issue("violation", f"{spec['cls']}.predict!=map[predict_a]", f"a {list(a_)} b {list(b_)} p {p.tolist()}", desc)
-            if use_artmap:
-                with quiet():
-                    reg = np.asarray(est.predict_regression(q))
-                    cen = est.module_b.get_cluster_centers()
-                want = np.array([cen[int(c)] for c in p])
-                if reg.shape != want.shape or not np.allclose(reg, want, rtol=0, atol=0, equal_nan=True):
-                    ctx.issue("violation", "ARTMAP.predict_regression!=B-centre", f"{reg.tolist()} vs {want.tolist()}", desc)
-                cov.hit("regression-checked")
-        except Exception as e:
-            ctx.issue("violation", f"{spec['cls']}({acls}).predict:{exc_enum(e)}", f"predict raised {e!r}", desc)
+        pred_clauses(ctx, est, spec["cls"], acls, use_artmap, q, desc)
         ncls = len(set(np.asarray(est.labels_b).tolist()))
         cov.case((spec, desc["X"], desc["y"], mode, eps, calls), ncls >= 2 and len(est.map) >= 2)
         if len(est.map) > ncls:
             cov.hit("several-categories-per-class")
         if i < 3:
             cov.sample({"spec": spec, "mode": mode, "eps": eps, "n": n, "calls": calls, "map": dict(est.map)})
+    rejected_call_histories(ctx, ctx.scale(240, 3000), ctx.scale(14, 40))
     e2e.smap_histories(ctx, "C09", ctx.scale(200, 4000), ctx.scale(16, 60))
     e2e.smap_epoch_histories(ctx, "C09", ctx.scale(80, 1500), ctx.scale(12, 40))
